@@ -352,7 +352,7 @@ func ruleKeyOrderPredicates(c *Ctx, id string) {
 			fn := c.fn(name)
 			bad := ""
 			for _, exact := range []bool{true, false} {
-				for _, idx := range []int64{0, 3} {
+				for _, idx := range []int64{0, 1, 3} {
 					var stored *V
 					ev := &Evaluator{
 						Call: func(call *ssa.Call, args []V) (V, bool) {
